@@ -1542,8 +1542,11 @@ func (app *App) SetDefaultReplicationSettingsForNode(node *mysql.Node) error {
 
 func (app *App) getCurrentMaster(clusterState map[string]*nodestate.NodeState) (string, error) {
 	master, err := app.GetMasterHostFromDcs()
-	if master != "" && err == nil {
-		return master, err
+	if err != nil {
+		return "", err
+	}
+	if master != "" {
+		return master, nil
 	}
 	return app.ensureCurrentMaster(clusterState)
 }
